@@ -710,7 +710,9 @@ def g_cert_req12(ver):
             left -= 2 + len(ca)
             cas.append(ca)
         sig = None
-        if ver == (3, 3):
+        if ver == (3, 3) or g.count(2):
+            # (the server passes its signature algorithms whatever the
+            # version: below TLS 1.2 the field is not part of the message)
             sig = [(g.u(1), g.u(1)) for _ in range(g.count(200))]
         return M.CertificateRequest(ver).create(_ints(g, 1, 1), cas, sig)
     return gen
